@@ -11,7 +11,10 @@ ItemsC == <<"once", "async", "spin">>
 ItemsD == <<"async", "col", "async">>
 ItemsE == <<"spinasync", "col">>
 ItemsF == <<"oncenull", "async">>
+ItemsH == <<"async", "fail", "spinasync">>
+ItemsI == <<"spinasync", "async", "fail">>
+ItemsJ == <<"async", "spinasync", "once">>
 
-ExportJson == Returned => PrintT(ToJson([items |-> Items, nrows |-> NRows, nested |-> Nested, sched |-> sched,
+ExportJson == Returned => PrintT(ToJson([items |-> Items, nrows |-> NRows, nested |-> Nested, failrow |-> FailRow, window |-> (IF EmptyWindow THEN "empty" ELSE "all"), sched |-> sched,
                                          cell |-> [r \in Rows |-> [i \in Its |-> cell[r][i]]]]))
 =============================================================================
